@@ -1,4 +1,5 @@
 import Wayfind.Proofs.Unique5
+import Wayfind.Proofs.RoutesNodup
 import Wayfind.Generated.Facts
 
 /-! # C15 — the printed tree is the canonical compressed radix tree of the live routes
@@ -18,10 +19,9 @@ depends on the tree only through its skeleton — labels, order, marks (`C15_dis
 marked nodes, literal labels concatenated, are exactly the part lists of the expansions of the live templates.
 And the drawing is *the* canonical tree of that set: any two canonical trees with the same keys have the same skeleton and
 print identically (`C15_canonical_is_unique`).
-Status: proved for every history. Not proved: that a marked path occurs once in the *list* `Node.routes` (it follows from
-the distinct first bytes / labels, and the lookup `find` is a function, which is what the theorems use); the text-level
-reading of the drawing (glyphs, padding) is checked on the implementation's own drawings by the `C15` oracle, which parses
-the printed tree back (Spec/Drawing.lean). -/
+Each marked path occurs **once** (`C15_each_marked_path_once`: the normalised keys of `Node.routes` are pairwise different).
+Status: proved for every history. Not proved: the text-level reading of the drawing (glyphs, padding) — checked on the
+implementation's own drawings by the `C15` oracle, which parses the printed tree back (Spec/Drawing.lean). -/
 
 theorem C15_tree_canonical (r : Router) (h : Reachable r) :
     Node.Shp r.root ∧ Node.Srt r.root ∧ Node.SrtS r.root ∧ Node.Cmp r.root :=
@@ -72,6 +72,11 @@ theorem C15_marked_paths_are_live_routes (r : Router) (L : List LiveT) (h : Live
     have hwf : wfParts e.2 = true := parse_wf (hreg.parsed lt hlt) e he
     obtain ⟨rt, hrt, hn, _⟩ := (Node.find_iff r.root e.2 i hreg.shp hwf).1 hf
     exact ⟨rt, hrt, hn⟩
+
+/-- every marked label path occurs once: the list of marked paths has no repetition -/
+theorem C15_each_marked_path_once (r : Router) (h : Reachable r) :
+    ((Node.routes r.root).map (fun rt => norm rt.parts)).Nodup :=
+  routes_keys_nodup r.root (reachable_good3 r h).1
 
 /-- **Canonical means unique**: two canonical trees storing the same keys have the same skeleton and the same drawing. -/
 theorem C15_canonical_is_unique (n1 n2 : Node) (c1 : Canon n1) (c2 : Canon n2)
